@@ -342,7 +342,7 @@ int main(int argc, char** argv) {
     if (a == "--space") space_id = nx(); else if (a == "--out") g_out = nx(); else if (a == "--jobs") jobs = atoi(nx().c_str()); else if (a == "--solution") g_solution = nx();
     else if (a == "--tier") g_tier = nx() == "thorough"; else if (a == "--evals") { std::istringstream es(nx()); std::string t; while (std::getline(es, t, ',')) if (!t.empty()) g_evals.push_back(t); } else if (a == "--deadline") deadline = atof(nx().c_str()); else if (a == "--replay") replay = nx(); }
   g_cap = g_out + ".cap." + std::to_string(getpid());
-  Space SP = make_space(space_id); g_key_last = SP.key_last;
+  Space SP = make_space(space_id); g_key_last = SP.key_last && !getenv("E2_PLAIN_STATE_KEY");
   load_catalogue();
   for (auto& s : SP.solutions) defaults_for(s);
   double t_end = now() + deadline;
